@@ -62,7 +62,7 @@ Proof.
   intros Hne. unfold imp_align_argmax, argmax. cbv zeta.
   destruct blocks as [|c r]; [congruence|].
   unfold go_range, indexed. rewrite map_length.
-  change (go_iter _ _ 0) with (go_iter (argmax_body (map blk_of (c :: r))) (combine (zseq (Z.of_nat (length (@nil cell))) (length (c :: r))) (map blk_of (c :: r))) 0).
+  timeout 120 (change (go_iter _ _ 0) with (go_iter (argmax_body (map blk_of (c :: r))) (combine (zseq (Z.of_nat (length (@nil cell))) (length (c :: r))) (map blk_of (c :: r))) 0)).
   rewrite (argmax_loop (c :: r) (c :: r) [] 0 c eq_refl) by (cbn [length]; first [lia | reflexivity]).
   reflexivity.
 Qed.
@@ -180,12 +180,12 @@ Proof.
   destruct (Z.eqb_spec bn 0); [contradiction|].
   unfold go_make. cbn [Z.ltb Z.compare Z.to_nat repeat]. cbv zeta.
   unfold go_len at 1. rewrite map_length.
-  change (go_while fuel _ _ ([], Z.of_nat (length blocks) - 1))
-    with (go_while (R := list N * Z) fuel trace_cond (trace_body (map blk_of blocks) bn) (map step_n (rev []), Z.of_nat (length blocks) - 1)).
+  timeout 120 (change (go_while fuel _ _ ([], Z.of_nat (length blocks) - 1))
+    with (go_while (R := list N * Z) fuel trace_cond (trace_body (map blk_of blocks) bn) (map step_n (rev []), Z.of_nat (length blocks) - 1))).
   rewrite (trace_loop blocks bn _ fuel _ _ _ Ht Hf). cbn [after]. cbv beta iota.
   cbn [Z.ltb Z.compare]. cbv zeta.
-  change (go_while fuel _ _ (0, map step_n (rev steps)))
-    with (go_while (R := list N * Z) fuel rev_cond rev_body (0, map step_n (rev steps))).
+  timeout 120 (change (go_while fuel _ _ (0, map step_n (rev steps)))
+    with (go_while (R := list N * Z) fuel rev_cond rev_body (0, map step_n (rev steps)))).
   destruct (rev_loop_all (R := list N * Z) (map step_n (rev steps)) fuel) as (k & Hk).
   { rewrite map_length, rev_length.
     assert (length steps <= length blocks)%nat; [|assert (length steps / 2 <= length steps)%nat by (apply Nat.div_le_upper_bound; lia); lia].
